@@ -118,4 +118,24 @@ CHECKS = {
         floors={"ending=readfail": 0.2, "ending=writefail": 0.2, "ending=stop": 0.2, "parked-in-send": 0.1},
         assumptions=COMMON_ASSUMPTIONS + ["cancelling the context passed to Serve is not among the endings the property lists and is not generated"],
     ),
+    "C12": dict(
+        level="exploration",
+        rule=("scripted peer against a goat server; alphabet of 25 envelope shapes (valid unary, unary without body / with undecodable -bin metadata / wrong destination / garbage body, unknown service, unknown method, unparsable and empty method, no header, empty envelope, stream open, open with bad metadata / wrong destination / 2-hop route record, body, garbage body, OK and error trailers, reset, reset of unknown type, body+trailer, timeout headers 1n and 99999999H, response-shaped envelope) x stream ids {1,2} = 50 symbols. "
+              "(a) bounded-exhaustive: every sequence of length<=2 (2550) plus a seeded 1/40 sample of length 3 in the quick tier; every sequence of length<=3 (127550) plus a 1/20 sample of length 4 in the thorough tier; (b) rapid sequences of length 1..40; each sequence is followed by a valid probe request on a fresh id, the bubble settles after every envelope. "
+              "Oracle (invariants, not an exact model): process alive, Serve still running, probe answered exactly; unary handler runs == well-formed unary requests (requests without a body may or may not run it), every run answered exactly once with a well-formed swapped-address response, refusals only for undecodable requests; "
+              "stream handler starts <= well-formed opens and >=1 if any; a body for a never-opened id is answered by a reset for that id; resets only with such a trigger; no envelope for an id never received. Non-trivial = sequence mixes malformed and well-formed envelopes or touches an id twice."),
+        jobs=[dict(test="TestC12Enum", kind="enum", quick=1, thorough=1), dict(test="TestC12", quick=1600, thorough=40000)],
+        assumptions=COMMON_ASSUMPTIONS,
+        exhaustive_all=False,
+    ),
+    "C13": dict(
+        level="exploration",
+        rule=("scripted peer against a goat client with two outstanding calls A and B (kinds drawn from {unary, client, server, bidi}^2, with/without a stats handler, with/without Header() first, with/without a caller deadline); "
+              "alphabet of 20 response shapes (reply, reply with explicit OK status, status, status+body, no header, header with undecodable -bin metadata, header only, body, garbage body, OK/error trailers, trailer with undecodable metadata, reset, reset+status, empty, request-shaped, body+trailer, trailer without status, headerless body, status without trailer) x targets {A, B, unknown id} = 60 symbols. "
+              "(a) bounded-exhaustive: every sequence of length<=2 (3660) each under one of 128 rotating configurations plus a 1/30 sample of length 3 (quick); length<=3 (219660) plus a 1/40 sample of length 4 (thorough); (b) rapid sequences of length 1..30. After the sequence the connection is closed. "
+              "Oracle: no crash; every API call (Invoke, Header, RecvMsg loop, Trailer) has returned after the close; a unary success carries a body some envelope addressed to that call carried; successful receives are an in-order subsequence of the bodies addressed to the stream; io.EOF only after a trailer with OK/absent status addressed to the stream and no earlier reset. "
+              "Non-trivial = at least one envelope addressed to an outstanding call."),
+        jobs=[dict(test="TestC13Enum", kind="enum", quick=1, thorough=1), dict(test="TestC13", quick=1600, thorough=40000)],
+        assumptions=COMMON_ASSUMPTIONS,
+    ),
 }
